@@ -205,7 +205,7 @@ def numeric_crosscheck(led, model):
         if r.get('raised') or r.get('replay_error'):
             led.error('%s could not run: %s' % (name, r.get('raised') or r.get('replay_error')))
             continue
-        bad = bool(r.get('n_entries_off')) or (r.get('asymmetry_of_kT') or 0) > 0 or (r.get('fint_at_zero_max') or 0) > 1e-9
+        bad = bool(r.get('n_entries_off')) or (r.get('asymmetry_of_kT') or 0) > 1e-9 * max(r.get('scale') or 1., 1.) or (r.get('fint_at_zero_max') or 0) > 1e-9
         if not bad:
             led.ok(name, lab, backend='numeric(bounded)')
         elif proof_failed:
